@@ -132,9 +132,10 @@ class RepoBuild:
             objs.append(w)
         return objs, libs
 
-    def harness(self, name, prog, extra_objs=(), cflags=()):
+    def harness(self, name, prog, extra_objs=(), cflags=(), exclude=()):
         """Compile /verif/harness/<name>.c against the link closure of <prog>."""
         objs, libs = self.link_deps(prog)
+        objs = [o for o in objs if o not in exclude]
         out = os.path.join(scratch(), name + (".san" if self.sanitize else ""))
         return self.compile_harness(os.path.join(VERIF, "harness", name + ".c"), out,
                                     objs=list(objs) + list(extra_objs), libs=libs, extra_cflags=cflags)
